@@ -121,6 +121,8 @@ class Item:
         self.usable = tc.ops_in_domain(self.ops)
         st, r = tc.run_impl(self.method, args, S, kwargs=self.kwargs)
         self.fresh = tc.abstract_path(r) if st == "ok" else None
+        # the same, written out with coordinates and vacancies while it is fresh (a grid changed in place later still compares equal to itself)
+        self.fresh_txt = tc.path_text(self.fresh, tc.PosTable()) if self.fresh is not None else "ERR"
         self.fresh_error = None if st == "ok" else str(r).split(":")[0]        # the class of the exception a fresh instance raises
         if omits_parameter:
             # a call that leaves a parameter out is refused by the interpreter (Python defaults are not part of a kernel's calling
@@ -163,15 +165,19 @@ def run_history(ctx, items, hist, S, label):
         if ap is None and it.fresh is None and str(r).split(":")[0] != it.fresh_error:
             ctx.fail({"kind": "differs-from-fresh-instance", "call": it.name, "prefix": [items[j].name for j in hist[:pos]], "what": "exception class"}, rep,
                      f"call {pos} ({it.name}) after {[items[j].name for j in hist[:pos]]} raises {str(r).split(':')[0]} but a fresh instance raises {it.fresh_error}")
+        if ap is not None and it.fresh is not None and tc.path_text(ap, tc.PosTable()) != it.fresh_txt:
+            ctx.fail({"kind": "differs-from-fresh-instance", "call": it.name, "prefix": [items[j].name for j in hist[:pos]], "what": "coordinates / vacancies"}, rep,
+                     f"call {pos} ({it.name}) after {[items[j].name for j in hist[:pos]]} returned {tc.path_text(ap, tc.PosTable())[:150]} but a fresh instance returned {it.fresh_txt[:150]}")
         if ap != it.fresh:
             ctx.fail({"kind": "differs-from-fresh-instance", "call": it.name, "prefix": [items[j].name for j in hist[:pos]]}, rep,
                      f"call {pos} ({it.name}) after {[items[j].name for j in hist[:pos]]} returned "
                      f"{obs_text(ap, tc.GridTable())[:150]} but a fresh instance returns {obs_text(it.fresh, tc.GridTable())[:150]}")
         results.append(r if st == "ok" else None)
-        snaps.append(ap)
+        snaps.append(None if ap is None else (ap, tc.path_text(ap, tc.PosTable())))
         for k in range(pos):
             now = tc.abstract_path(results[k]) if results[k] is not None else None
-            if now != snaps[k]:
+            now = None if now is None else (now, tc.path_text(now, tc.PosTable()))
+            if (now is None) != (snaps[k] is None) or (now is not None and (now[0] != snaps[k][0] or now[1] != snaps[k][1])):
                 ctx.fail({"kind": "earlier-result-modified", "earlier": items[hist[k]].name, "by": it.name}, rep,
                          f"the path returned by call {k} ({items[hist[k]].name}) was modified by call {pos} ({it.name})")
                 snaps[k] = now
@@ -322,6 +328,33 @@ def run(ctx):
             ctx.obligation("the colliding-hash kernels trace on a fresh instance", False, f"{it.name}: {it.fresh_error}")
     for hist in itertools.permutations(range(len(hash_items)), 3):
         cases.append(run_history(ctx, hash_items, list(hist) + [hist[0]], S, "colliding-hashes"))
+    # helper kernels called with KEYWORD arguments: two helpers whose parameters are declared in different orders, called with the same
+    # keywords in the same order, by different kernels traced on one instance (with a failing call in between)
+    hk = ("@tweezer\ndef hop_dx_dy(start, dx: float, dy: float):\n    action.move(grid.shift(start, dx, 0.0))\n    action.move(grid.shift(start, dx, dy))\n\n"
+          "@tweezer\ndef hop_dy_dx(start, dy: float, dx: float):\n    action.move(grid.shift(start, dx, 0.0))\n    action.move(grid.shift(start, dx, dy))\n\n")
+    mk = lambda call: hk + "@tweezer\ndef main(x: float):\n    g = grid.from_positions([x, x + 1.0], [0.0])\n    action.set_loc(g)\n    action.turn_on(action.ALL, action.ALL)\n    " + call + "\n"
+    kwh_items = [Item("helper declared (start, dx, dy)", mk("hop_dx_dy(g, dx=3.0, dy=7.0)"), (0.0,), S), Item("helper declared (start, dy, dx)", mk("hop_dy_dx(g, dx=3.0, dy=7.0)"), (0.0,), S),
+                 Item("helper called positionally", mk("hop_dy_dx(g, 7.0, 3.0)"), (0.0,), S), Item("helper called with the other keyword order", mk("hop_dx_dy(g, dy=7.0, dx=3.0)"), (0.0,), S)]
+    kwh_items += [it for it in fixed if it.fresh is None][:1]
+    if any(it.fresh is None for it in kwh_items[:4]) or len({it.fresh_txt for it in kwh_items[:4]}) != 1:
+        ctx.obligation("the keyword-helper kernels all trace the same path on fresh instances", False, str([(it.name, it.fresh_txt[:60]) for it in kwh_items[:4]]))
+    for hist in itertools.permutations(range(len(kwh_items)), 3):
+        cases.append(run_history(ctx, kwh_items, list(hist) + [hist[0]], S, "keyword-helpers"))
+    # a spec whose zone is a FILLED grid, vacated by the kernel and used as a waypoint: paths handed out earlier keep their vacancies, and
+    # every call sees the zone the spec was built with
+    from bloqade.geometry.dialects.grid import Grid
+    from bloqade.shuttle.arch import ArchSpec, Layout
+    from bloqade.shuttle.dialects.filled.types import FilledGrid
+
+    def filled_spec():
+        mem = FilledGrid(parent=Grid.from_positions([0.0, 2.0, 4.0], [0.0, 1.0]), vacancies=frozenset({(2, 1)}))
+        return ArchSpec(layout=Layout(static_traps={"mem": mem}, fillable={"mem"}, has_cz=set(), has_local=set()))
+    fsrc = ("@tweezer\ndef main(k: int):\n    assert k < 3, \"no such column\"\n    z = spec.get_static_trap(zone_id=\"mem\")\n    v = filled.vacate(z, [(k, 0)])\n    action.set_loc(z)\n"
+            "    action.turn_on(action.ALL, action.ALL)\n    action.move(v)\n    action.move(filled.shift(v, 1.0, 0.0))\n")
+    SF = filled_spec()
+    fz_items = [Item(f"vacate column {k} of the filled zone", fsrc, (k,), filled_spec()) for k in (0, 1, 7, 2)]
+    for hist in itertools.permutations(range(len(fz_items)), 3):
+        cases.append(run_history(ctx, fz_items, list(hist) + [hist[0]], SF, "filled-zone-of-the-spec"))
     typed_pool = typed + [fixed[3], fixed[4]]
     for n in (2, 3):
         for hist in itertools.permutations(range(len(typed_pool)), n):
